@@ -38,6 +38,12 @@ def standard_batches(rng, tier, quick_sizes=(4000, 3000, 3000, 3), thorough_size
              b'\nkey = v\n', b'a = { FOO(\nb = 1\n', b'## g\n\nk = { $x ->\n   *[o] y\n }\nz z\n']
     tails += [b for _, b in fx if len(b) < 400][:12]
     yield ('special-first-character', [case(h + t) for h in heads for t in tails])
+    # many broken entries in one resource: every one of them is reported, by both parsers (no cap on the error list)
+    many = []
+    for n in (127, 128, 129, 160):
+        many.append(case(b''.join(b'# c%d\nok%d = v\nbroken line %d\n' % (i, i, i) for i in range(n))))
+        many.append(case(b'}x\n' * n))
+    yield ('many-errors', many)
     small = [b for _, b in fx if len(b) < 1200]
     muts = []
     for _ in range(nmut):
